@@ -125,6 +125,34 @@ def c02(run):
     run.replay([out], "SliceIndex vectors")
     run.record_and_validate("SliceIndex", "Trace_SliceIndex", "Trace_SliceIndex.cfg",
                             n_files=4 if q else 16, n_events=5000 if q else 20000)
+    # the same vectors inside const items (a seeded sample): the const evaluator judges every pointer computation,
+    # also those whose result is never used (e.g. an offset past the end formed before a clamp)
+    import progs
+    import random
+    import gen_consteval as gc
+
+    def p8(v):
+        v = int(v)
+        if v <= 60:
+            return v
+        if v <= 127:
+            return (2**63 - 1) - (127 - v)
+        if v <= 190:
+            return 2**63 + (v - 128)
+        return (2**64 - 1) - (255 - v)
+    lines = open(out).readlines()
+    random.Random(run.seed).shuffle(lines)
+    ps = progs.ProgSet(run, "C02-consteval")
+    n, cap = 0, (900 if q else 6000)
+    for l in lines:
+        r = json.loads(l)
+        for cc in (gc.sliceindex(r, p8), gc.sliceindex_mut(r, p8, "u64"), gc.sliceindex_mut(r, p8, "u8")):
+            if cc is not None:
+                ps.add(cc[0], cc[1], dict(r, mac="const-eval:SliceIndex"))
+                n += 1
+        if n >= cap:
+            break
+    ps.execute()
     run.assumptions += [W8, BOUNDED, STD_GUARD,
                         "zero-sized elements: only the length of a result is observable, offsets are not compared"]
 
@@ -947,7 +975,7 @@ def c01(run):
             elif name == "StrIndex":
                 c = gc.strindex(r, p8)
             elif name == "SliceIndex":
-                c = gc.sliceindex(r, p8)
+                c = [gc.sliceindex(r, p8), gc.sliceindex_mut(r, p8, "u64"), gc.sliceindex_mut(r, p8, "u8")]
             elif name == "ParseInt":
                 c = gc.parseint(r)
             else:
